@@ -212,8 +212,6 @@ def pick(x, K):
         x = x._int()
     if isinstance(x, SymInt):
         c = S.ctx()
-        for k in range(K):
-            if c.decide(x.e == k):
-                return k
-        return x
+        r = c.choose(x.e, range(K))
+        return x if r is None else r
     return x
